@@ -74,7 +74,7 @@ pub fn run(ctx: &Ctx) -> Report {
                 if v != m[byte] {
                     let mut b = m.clone();
                     b[byte] = v;
-                    judge_guarded(judge, &Case::new("mutant", b).text(&["bytesub"]), &mut acc);
+                    judge_guarded(judge, &mutant_case(m, b, "bytesub"), &mut acc);
                 }
             }
             // plausible *alternative* values in the CRC field (an implementation accepting a second
@@ -97,7 +97,7 @@ pub fn run(ctx: &Ctx) -> Report {
                             if a != v {
                                 let mut b = m.clone();
                                 b[off + 4..off + 8].copy_from_slice(&a.to_be_bytes());
-                                judge_guarded(judge, &Case::new("mutant", b).text(&["alt-crc"]), &mut acc);
+                                judge_guarded(judge, &mutant_case(m, b, "alt-crc"), &mut acc);
                             }
                         }
                     }
@@ -126,7 +126,7 @@ pub fn run(ctx: &Ctx) -> Report {
                                 b[bit / 8] ^= 0x80 >> (bit % 8);
                             }
                         }
-                        judge_guarded(judge, &Case::new("mutant", b).text(&["burst"]), &mut acc);
+                        judge_guarded(judge, &mutant_case(m, b, "burst"), &mut acc);
                     }
                 }
             }
@@ -167,7 +167,7 @@ pub fn run(ctx: &Ctx) -> Report {
                 for bit in 0..8 {
                     let mut b = m.clone();
                     b[p] ^= 1 << bit;
-                    judge_guarded(judge, &Case::new("mutant", b).text(&["bitflip-large"]), &mut a);
+                    judge_guarded(judge, &mutant_case(m, b, "bitflip-large"), &mut a);
                 }
             }
             for p in [2usize, 3, n - 4, n - 3, n - 2, n - 1] {
@@ -175,7 +175,7 @@ pub fn run(ctx: &Ctx) -> Report {
                     if v != m[p] {
                         let mut b = m.clone();
                         b[p] = v;
-                        judge_guarded(judge, &Case::new("mutant", b).text(&["bytesub-large"]), &mut a);
+                        judge_guarded(judge, &mutant_case(m, b, "bytesub-large"), &mut a);
                     }
                 }
             }
@@ -212,11 +212,27 @@ pub fn run(ctx: &Ctx) -> Report {
     Report {
         acc,
         exhaustive: true,
-        rule: format!("8 bodies (one of ~300 bytes; thorough: one more of ~1150 bytes) x 4 sealing combinations ending in FINGERPRINT x 4 classes, built by the real builder; on each: the builder's CRC value vs the reference relation; every single-byte substitution (255 per byte, includes all single-bit flips); every burst of width 2..=32 at every start bit with both end bits set (all interior patterns up to width {full_w}, 3 shapes above); ~20 plausible alternative CRC values (byte-swapped, complemented, without the XOR constant, rotated, over other ranges or length fields); large messages with the FINGERPRINT starting at 65516..=65544 and around 256 / 4096 / 32768 x 2 classes with a stated subset of corruptions (every bit of the header, of the last 12 bytes and of every 509th byte, every value of the length-field and CRC bytes); the builder value for typed text attributes of every length 0..=763 followed by a FINGERPRINT (typed and after into_owned()); distinct_nontrivial = fingerprinted messages"),
+        rule: format!("(each corrupted copy is parsed right after its uncorrupted original) 8 bodies (one of ~300 bytes; thorough: one more of ~1150 bytes) x 4 sealing combinations ending in FINGERPRINT x 4 classes, built by the real builder; on each: the builder's CRC value vs the reference relation; every single-byte substitution (255 per byte, includes all single-bit flips); every burst of width 2..=32 at every start bit with both end bits set (all interior patterns up to width {full_w}, 3 shapes above); ~20 plausible alternative CRC values (byte-swapped, complemented, without the XOR constant, rotated, over other ranges or length fields); large messages with the FINGERPRINT starting at 65516..=65544 and around 256 / 4096 / 32768 x 2 classes with a stated subset of corruptions (every bit of the header, of the last 12 bytes and of every 509th byte, every value of the length-field and CRC bytes); the builder value for typed text attributes of every length 0..=763 followed by a FINGERPRINT (typed and after into_owned()); distinct_nontrivial = fingerprinted messages"),
         bounds: json!({"messages": n_msgs, "burst_exhaustive_width": full_w, "burst_max_width": 32}),
         assumptions: vec!["mutants the reference decoder accepts (FINGERPRINT dissolved into other well-formed attributes) fall under C02, not C09".into()],
         ..Default::default()
     }
+}
+
+/// A corrupted copy `b` of the fingerprinted message `m`; the case also records the original value
+/// of every changed byte, so that the judgement can parse the original first (a receiver normally
+/// has: retransmissions are byte-identical) and the corrupted copy afterwards, on its own.
+fn mutant_case(m: &[u8], b: Vec<u8>, tag: &str) -> Case {
+    let mut args = Vec::new();
+    if m.len() == b.len() && m.len() <= 2048 {
+        for (i, (x, y)) in m.iter().zip(b.iter()).enumerate() {
+            if x != y {
+                args.push(i as i64);
+                args.push(*x as i64);
+            }
+        }
+    }
+    Case::new("mutant", b).text(&[tag]).args(&args)
 }
 
 pub fn judge(case: &Case, acc: &mut Acc) {
@@ -247,6 +263,18 @@ pub fn judge(case: &Case, acc: &mut Acc) {
         }
         "mutant" => {
             let tag = case.text.first().map(|s| s.as_str()).unwrap_or("?");
+            // the uncorrupted original goes through the parser first
+            if !case.args.is_empty() && case.args.len() <= 64 {
+                let mut orig = buf.clone();
+                for pv in case.args.chunks(2) {
+                    if let [p, v] = pv {
+                        if (*p as usize) < orig.len() {
+                            orig[*p as usize] = *v as u8;
+                        }
+                    }
+                }
+                let _ = Message::from_bytes(&orig);
+            }
             match wire::decode(buf) {
                 Ok(_) => acc.outcome("mutant is itself well-formed (C02)"),
                 Err(r) => {
